@@ -334,6 +334,46 @@ pub fn format(report: &TaxReport) -> Result<Vec<u8>, PdfError> {
     Ok(pdf)
 }
 
+/// Verification hook: the text runs of the compiled Typst document, so that the figures the
+/// PDF shows can be compared with the computed values without a PDF text extractor.
+///
+/// Returns `(page index, y, x, text)` for every text item of every page, in frame order.
+///
+/// # Errors
+/// Returns `PdfError::TypstCompilation` if the document does not compile.
+#[cfg(feature = "verif-hooks")]
+pub fn verif_text_runs(report: &TaxReport) -> Result<Vec<(usize, f64, f64, String)>, PdfError> {
+    use typst::layout::{Frame, FrameItem, PagedDocument, Point};
+
+    fn walk(frame: &Frame, origin: Point, page: usize, out: &mut Vec<(usize, f64, f64, String)>) {
+        for (pos, item) in frame.items() {
+            let at = origin + *pos;
+            match item {
+                FrameItem::Group(group) => walk(&group.frame, at, page, out),
+                FrameItem::Text(text) => {
+                    out.push((page, at.y.to_pt(), at.x.to_pt(), text.text.to_string()));
+                }
+                _ => {}
+            }
+        }
+    }
+
+    let data = build_template_data(report)?;
+    let engine = TypstEngine::builder()
+        .main_file(TEMPLATE)
+        .fonts([ROBOTO_REGULAR, ROBOTO_BOLD])
+        .build();
+    let compiled = engine.compile_with_input::<_, PagedDocument>(data);
+    let doc = compiled
+        .output
+        .map_err(|e| PdfError::TypstCompilation(e.to_string()))?;
+    let mut out = Vec::new();
+    for (index, page) in doc.pages.iter().enumerate() {
+        walk(&page.frame, Point::zero(), index, &mut out);
+    }
+    Ok(out)
+}
+
 pub struct PdfFormatter;
 
 impl Formatter for PdfFormatter {
